@@ -1,8 +1,8 @@
-\* the code as it is (quick tier): no crash
-\* measured: 641 572 / 2 914 397, depth 37 (distinct / generated states)
+\* the code as it is where the write channel fills (Drop fires): what still holds
+\* measured: 165 952 / 620 276, depth 39 (distinct / generated states)
 CONSTANTS NTx = 3 Kind <- KindS Sender <- SenderS Nonce <- NonceS NAccs = 1 Accs <- MCAccs StartEmpty = FALSE
-  Max = 3 NPushers = 1 NConsumers = 1 Batch = 2
-  MaxPush = 3 MaxBlocks = 1 MaxFail = 0 MaxCrash = 0 MaxClose = 1 MaxPops = 1 MaxExecErr = 0 MaxFatal = 0
+  Max = 2 NPushers = 1 NConsumers = 0 Batch = 2
+  MaxPush = 4 MaxBlocks = 0 MaxFail = 0 MaxCrash = 0 MaxClose = 1 MaxPops = 3 MaxExecErr = 0 MaxFatal = 0
   DedupFix = FALSE OverflowFix = FALSE Mutant = "none"
 INIT Init
 NEXT Next
